@@ -1,1 +1,247 @@
-/- property theorems for C06 (filled in below) -/
+/-
+C06 — automaton-driven enumeration returns exactly the accepted words and their images.
+
+Only property theorems and non-vacuity examples live here.  Model: `GT.Model.RepAut`
+(`Rep.accepted` = literal recursion of `Representation._automaton_accepted` with the `precomputed`
+dict threaded explicitly; `Rep.automatonAccepted` = the public wrapper; `Aut` = label view of an
+FSA with the `out_dict`/`in_dict` views the code reads).  Helper lemmas: `GT.Lemmas.RepAut*`.
+
+Vocabulary.  `Rep.accSpec ρ a o L v` is the memo-free specification of the recursion (same
+traversal, list of `(word, matrix)` pairs); `Rep.toRes o pairs` packs it the way Python returns it
+(`(matrices, words)` or the matrices alone); `Rep.MemoOK ρ a o memo` says every entry of the
+`precomputed` dict is the specified value *for these options*; `Rep.startLang a maxlen L v` /
+`Rep.endLang a maxlen L v` are the reference path enumerations (label concatenations of all paths
+of length `= L` / `≤ L` from `v`, resp. from a start vertex to `v`), so `List.Perm` with them is
+"exactly the accepted words, each once per accepting path".
+-/
+import GT.Lemmas.RepAut
+
+set_option linter.unusedSectionVars false
+
+namespace GT.C06
+open GT GT.RepW GT.RepW.Rep
+
+variable {V : Type} [DecidableEq V] {n : ℕ} {R : Type} [Inhabited R] [CommRing R]
+
+/-! ## memo -/
+
+/-- **memo soundness and completeness** in one statement: on a `precomputed` dict all of whose
+entries are right for these options, the memoised recursion returns exactly what the memo-free
+specification returns (same result, or the same exception), and leaves a dict with the same
+property — so a dict may be reused across calls with other lengths and states. -/
+theorem memo_agrees (ρ : Rep n R) (a : Aut V) (L : Nat) (o : AccOpts) (v : V) (memo : Memo V n R)
+    (hm : MemoOK ρ a o memo) :
+    Agrees o (MemoOK ρ a o) (ρ.accepted a L o (some v) memo) (ρ.accSpec a o L v) :=
+  Rep.accepted_agrees ρ a L o v memo hm
+
+theorem memo_sound (ρ : Rep n R) (a : Aut V) (L : Nat) (o : AccOpts) (v : V)
+    (memo memo' : Memo V n R) (res : AccRes n R) (hm : MemoOK ρ a o memo)
+    (h : ρ.accepted a L o (some v) memo = .ok (res, memo')) :
+    (∃ pairs, ρ.accSpec a o L v = .ok pairs ∧ res = toRes o pairs) ∧ MemoOK ρ a o memo' :=
+  Rep.memo_sound ρ a L o v memo memo' res hm h
+
+theorem memo_complete (ρ : Rep n R) (a : Aut V) (L : Nat) (o : AccOpts) (v : V)
+    (memo : Memo V n R) (pairs : List (String × DMat n n R)) (hm : MemoOK ρ a o memo)
+    (h : ρ.accSpec a o L v = .ok pairs) :
+    ∃ memo', ρ.accepted a L o (some v) memo = .ok (toRes o pairs, memo') ∧ MemoOK ρ a o memo' :=
+  Rep.memo_complete ρ a L o v memo pairs hm h
+
+/-- `state=None` (default start vertex) -/
+theorem memo_sound_none (ρ : Rep n R) (a : Aut V) (L : Nat) (o : AccOpts)
+    (memo memo' : Memo V n R) (res : AccRes n R)
+    (hm : MemoOK ρ a { o with asStart := true } memo)
+    (h : ρ.accepted a L o none memo = .ok (res, memo')) :
+    (∃ pairs, ρ.accSpecO a { o with asStart := true } L none = .ok pairs ∧
+        res = toRes o pairs) ∧ MemoOK ρ a { o with asStart := true } memo' :=
+  Rep.memo_sound_none ρ a L o memo memo' res hm h
+
+/-- the empty dict (`precomputed=None`) is sound -/
+theorem memo_empty (ρ : Rep n R) (a : Aut V) (o : AccOpts) : MemoOK ρ a o [] := Rep.memoOK_nil ρ a o
+
+/-- the public wrapper `automaton_accepted` (all choices of `start_state` / `end_state`; both
+given ⇒ `ValueError`) agrees with the specification on every sound dict -/
+theorem automatonAccepted_agrees (ρ : Rep n R) (a : Aut V) (L : Nat) (maxlen withWords : Bool)
+    (startState endState : Option V) (memo : Memo V n R) (edgeWords : Bool)
+    (hm : MemoOK ρ a (topOpts maxlen withWords endState edgeWords) memo) :
+    Agrees (topOpts maxlen withWords endState edgeWords)
+      (MemoOK ρ a (topOpts maxlen withWords endState edgeWords))
+      (ρ.automatonAccepted a L maxlen withWords startState endState memo edgeWords)
+      (ρ.topSpec a L maxlen withWords startState endState edgeWords) :=
+  Rep.automatonAccepted_agrees ρ a L maxlen withWords startState endState memo edgeWords hm
+
+/-! ## matrices are the images of the words -/
+
+/-- every pair `(w, M)` of the specification has `M = ρ(w)` — labels read as words
+(`edge_words=True`, `labelOK_of_edgeWords`) or as single generators (`edge_words=False`,
+`labelOK_of_single`) -/
+theorem accepted_pairs_spec (ρ : Rep n R) (a : Aut V) (o : AccOpts) (hL : LabelOK ρ o) (L : Nat) (v : V)
+    (pairs : List (String × DMat n n R)) (h : ρ.accSpec a o L v = .ok pairs) :
+    ∀ sM ∈ pairs, ρ.value (parseWord true sM.1) = .ok sM.2.toMatrix :=
+  Rep.accSpec_pairs ρ a o hL L v pairs h
+
+/-- **`accepted_pairs`**: what `_automaton_accepted(..., with_words=True)` returns on a sound dict:
+the k-th matrix is, entry by entry, the image of the k-th word -/
+theorem accepted_pairs (ρ : Rep n R) (a : Aut V) (L : Nat) (o : AccOpts) (v : V)
+    (memo memo' : Memo V n R) (res : AccRes n R) (hL : LabelOK ρ o) (hw : o.withWords = true)
+    (hm : MemoOK ρ a o memo) (h : ρ.accepted a L o (some v) memo = .ok (res, memo')) :
+    List.Forall₂ (fun s M => ρ.value (parseWord true s) = .ok (DMat.toMatrix M)) res.words res.mats :=
+  Rep.accepted_pairs ρ a L o v memo memo' res hL hw hm h
+
+/-- the same for the public wrapper, every choice of start / end state -/
+theorem automatonAccepted_pairs (ρ : Rep n R) (a : Aut V) (L : Nat) (maxlen : Bool)
+    (startState endState : Option V) (memo memo' : Memo V n R) (edgeWords : Bool)
+    (res : AccRes n R) (hL : LabelOK ρ (topOpts maxlen true endState edgeWords))
+    (hm : MemoOK ρ a (topOpts maxlen true endState edgeWords) memo)
+    (h : ρ.automatonAccepted a L maxlen true startState endState memo edgeWords = .ok (res, memo')) :
+    List.Forall₂ (fun s M => ρ.value (parseWord true s) = .ok (DMat.toMatrix M)) res.words res.mats :=
+  Rep.automatonAccepted_pairs ρ a L maxlen startState endState memo memo' edgeWords res hL hm h
+
+/-- `with_words=False` returns the very same matrices (fresh dict) -/
+theorem accepted_mats_withWords_irrel (ρ : Rep n R) (a : Aut V) (L : Nat) (o : AccOpts) (v : V)
+    (b : Bool) (m1 m2 : Memo V n R) (r1 r2 : AccRes n R)
+    (h1 : ρ.accepted a L o (some v) [] = .ok (r1, m1))
+    (h2 : ρ.accepted a L { o with withWords := b } (some v) [] = .ok (r2, m2)) :
+    r2.mats = r1.mats :=
+  Rep.accepted_mats_withWords_irrel ρ a L o v b m1 m2 r1 r2 h1 h2
+
+theorem labelOK_edgeWords (ρ : Rep n R) (o : AccOpts) (hp : ρ.parseSimple = true)
+    (he : o.edgeWords = true) : LabelOK ρ o := Rep.labelOK_of_edgeWords ρ o hp he
+
+theorem labelOK_single (ρ : Rep n R) (o : AccOpts) (he : o.edgeWords = false)
+    (h1 : ∀ g ∈ ρ.gens.map Prod.fst, ∃ c : Char, g = String.ofList [c]) : LabelOK ρ o :=
+  Rep.labelOK_of_single ρ o he h1
+
+/-! ## the returned words are the accepted words, once per accepting path -/
+
+/-- from a start state: words of all paths of length `= L` (`maxlen=False`) / `≤ L` (`maxlen=True`) -/
+theorem accepted_words_start (ρ : Rep n R) (a : Aut V) (o : AccOpts) (h1 : o.asStart = true)
+    (L : Nat) (v : V) (pairs : List (String × DMat n n R)) (h : ρ.accSpec a o L v = .ok pairs) :
+    (pairs.map Prod.fst).Perm (startLang a o.maxlen L v) :=
+  Rep.accepted_words_start ρ a o h1 L v pairs h
+
+/-- towards an end state: words of all paths from a start vertex to that state (repaired code:
+no early return for states without incoming edges) -/
+theorem accepted_words_end (ρ : Rep n R) (a : Aut V) (hwf : a.WF) (o : AccOpts)
+    (h1 : o.asStart = false) (L : Nat) (v : V) (pairs : List (String × DMat n n R))
+    (h : ρ.accSpec a o L v = .ok pairs) : (pairs.map Prod.fst).Perm (endLang a o.maxlen L v) :=
+  Rep.accepted_words_end ρ a hwf o h1 L v pairs h
+
+/-- agreement with the automaton's own `enumerate_words` / `enumerate_fixed_length_paths` -/
+theorem accepted_eq_enumerate (ρ : Rep n R) (a : Aut V) (o : AccOpts) (h1 : o.asStart = true)
+    (h2 : o.maxlen = true) (L : Nat) (v : V) (pairs : List (String × DMat n n R))
+    (ws : List (String × V)) (h : ρ.accSpec a o L v = .ok pairs)
+    (he : a.enumWords v L = .ok ws) : (pairs.map Prod.fst).Perm (ws.map Prod.fst) :=
+  Rep.accepted_eq_enumerate ρ a o h1 h2 L v pairs ws h he
+
+theorem accepted_eq_enumFixed (ρ : Rep n R) (a : Aut V) (o : AccOpts) (h1 : o.asStart = true)
+    (h2 : o.maxlen = false) (L : Nat) (v : V) (pairs : List (String × DMat n n R))
+    (ws : List (String × V)) (h : ρ.accSpec a o L v = .ok pairs)
+    (he : a.enumFixed v L = .ok ws) : (pairs.map Prod.fst).Perm (ws.map Prod.fst) :=
+  Rep.accepted_eq_enumFixed ρ a o h1 h2 L v pairs ws h he
+
+/-- the public wrapper, `with_words=True`, start direction (explicit `start_state` or the default
+start vertex), any sound dict -/
+theorem automatonAccepted_words_start (ρ : Rep n R) (a : Aut V) (L : Nat) (maxlen : Bool)
+    (startState : Option V) (memo memo' : Memo V n R) (edgeWords : Bool) (res : AccRes n R)
+    (s : V) (hs : (startState <|> a.starts.head?) = some s)
+    (hm : MemoOK ρ a (topOpts maxlen true (none : Option V) edgeWords) memo)
+    (h : ρ.automatonAccepted a L maxlen true startState none memo edgeWords = .ok (res, memo')) :
+    res.words.Perm (startLang a maxlen L s) :=
+  Rep.automatonAccepted_words_start ρ a L maxlen startState memo memo' edgeWords res s hs hm h
+
+/-- the public wrapper, `end_state=e` -/
+theorem automatonAccepted_words_end (ρ : Rep n R) (a : Aut V) (hwf : a.WF) (L : Nat)
+    (maxlen : Bool) (e : V) (memo memo' : Memo V n R) (edgeWords : Bool) (res : AccRes n R)
+    (hm : MemoOK ρ a (topOpts maxlen true (some e) edgeWords) memo)
+    (h : ρ.automatonAccepted a L maxlen true none (some e) memo edgeWords = .ok (res, memo')) :
+    res.words.Perm (endLang a maxlen L e) :=
+  Rep.automatonAccepted_words_end ρ a hwf L maxlen e memo memo' edgeWords res hm h
+
+theorem automatonAccepted_eq_enumerate (ρ : Rep n R) (a : Aut V) (L : Nat)
+    (startState : Option V) (memo memo' : Memo V n R) (edgeWords : Bool) (res : AccRes n R)
+    (s : V) (hs : (startState <|> a.starts.head?) = some s) (ws : List (String × V))
+    (hm : MemoOK ρ a (topOpts true true (none : Option V) edgeWords) memo)
+    (h : ρ.automatonAccepted a L true true startState none memo edgeWords = .ok (res, memo'))
+    (he : a.enumWords s L = .ok ws) : res.words.Perm (ws.map Prod.fst) :=
+  Rep.automatonAccepted_eq_enumerate ρ a L startState memo memo' edgeWords res s hs ws hm h he
+
+/-- the reference enumeration is the literal `enumerate_fixed_length_paths` -/
+theorem enumFixed_eq_paths (a : Aut V) (s : V) (k : Nat) (xs : List (String × V))
+    (h : a.enumFixed s k = .ok xs) : xs = a.pathsFrom k s := Aut.enumFixed_eq a s k xs h
+
+/-! ## when exceptions are raised -/
+
+/-- start direction: a value exists for every vertex of the automaton when every label has an image -/
+theorem accSpec_total_start (ρ : Rep n R) (a : Aut V) (o : AccOpts) (h1 : o.asStart = true)
+    (hlab : LabelsDefined ρ a o) (L : Nat) (v : V) (hv : v ∈ a.vertices) :
+    ∃ pairs, ρ.accSpec a o L v = .ok pairs := Rep.accSpec_total_start ρ a o h1 hlab L v hv
+
+/-- … and `KeyError` for a start state that is not a vertex (length ≥ 1) -/
+theorem accSpec_keyError (ρ : Rep n R) (a : Aut V) (o : AccOpts) (h1 : o.asStart = true) (k : Nat) (v : V)
+    (hv : v ∉ a.vertices) : ρ.accSpec a o (k + 1) v = .error "KeyError" :=
+  Rep.accSpec_keyError ρ a o h1 k v hv
+
+/-- end direction: always a value (`in_dict` is a `defaultdict`) -/
+theorem accSpec_total_end (ρ : Rep n R) (a : Aut V) (o : AccOpts) (h1 : o.asStart = false)
+    (hlab : LabelsDefined ρ a o) (L : Nat) (v : V) : ∃ pairs, ρ.accSpec a o L v = .ok pairs :=
+  Rep.accSpec_total_end ρ a o h1 hlab L v
+
+/-! ## free groups -/
+
+/-- **`free_language`**: the paths of length `k` from the start state of `free_automaton(gs)` spell
+exactly the freely reduced words of length `k` over `gs ∪ gs⁻¹` -/
+theorem free_language {gs : List Gen} (h : FreeOK gs) (k : Nat) (w : List Gen) :
+    w ∈ freePaths (freeGens gs) k "" ↔
+      w.length = k ∧ (∀ g ∈ w, g ∈ freeGens gs) ∧ simplifyWord invertGen w = w :=
+  RepW.free_language h k w
+
+/-- the same on Python strings (single-character generator names), -/
+theorem free_pathWords_mem {gs : List Gen} (h : FreeOK gs) (hs : SingleChar (freeGens gs))
+    (k : Nat) (s : String) :
+    s ∈ (freeAutomaton gs).pathWords k "" ↔ s.length = k ∧ IsReducedWord gs s :=
+  RepW.free_pathWords_mem h hs k s
+
+/-- `freely_reduced_elements(L, maxlen, with_words=True)` returns each freely reduced word of
+length `= L` / `≤ L` exactly once, paired with its image -/
+theorem freelyReducedElements_spec (ρ : Rep n R) (L : Nat) (maxlen : Bool) (res : AccRes n R)
+    (h : ρ.freelyReducedElements L maxlen true = .ok res)
+    (hok : FreeOK ρ.asymGens) (hs : SingleChar (freeGens ρ.asymGens)) :
+    res.words.Nodup ∧
+    (∀ s, s ∈ res.words ↔
+      (if maxlen then s.length ≤ L else s.length = L) ∧ IsReducedWord ρ.asymGens s) ∧
+    (ρ.parseSimple = true →
+      List.Forall₂ (fun s M => ρ.value (parseWord true s) = .ok (DMat.toMatrix M))
+        res.words res.mats) :=
+  Rep.freelyReducedElements_spec ρ L maxlen res h hok hs
+
+/-! ## non-vacuity (concrete automaton `0 -a→ 1 -a→ 1 -b→ 0`, `SL(2,ℤ)` matrices) -/
+
+section examples
+open RepAutExamples
+
+example : MemoOK r0 a0 {} [] := memo_empty _ _ _
+example : (r0.accSpec a0 {} 2 0).isOk = true := by decide
+example : (r0.accSpec a0 { asStart := false, maxlen := false } 2 1).isOk = true := by decide
+example : LabelOK r0 { withWords := true } := labelOK_edgeWords r0 _ rfl rfl
+example : a0.WF := ⟨by decide, by decide⟩
+example : startLang a0 true 2 0 = ["", "a", "aa", "ab"] := by decide
+example : endLang a0 true 3 0 = ["", "ab", "aab"] := by decide
+example : (a0.enumWords 0 2).isOk = true := by decide
+example : FreeOK ["a", "b"] := ⟨by decide, by decide, by decide⟩
+example : ((r1.freelyReducedElements 2 true true).toOption.map fun r => r.words) =
+    some ["", "a", "aa", "A", "AA"] := by decide
+
+/-- the `precomputed` dict is only sound for the options it was filled under (defect D12 of the
+design, kept as a known finding): a dict filled by a `maxlen=True` call makes a `maxlen=False` call
+return the `maxlen=True` answer -/
+example :
+    let m := ((r0.accepted a0 2 { withWords := true } (some 0) []).toOption.map (·.2)).getD []
+    ((r0.accepted a0 2 { withWords := true, maxlen := false } (some 0) m).toOption.map
+        (·.1.words)) = some ["", "a", "aa", "ab"] ∧
+    ((r0.accepted a0 2 { withWords := true, maxlen := false } (some 0) []).toOption.map
+        (·.1.words)) = some ["aa", "ab"] := by
+  decide
+
+end examples
+
+end GT.C06
